@@ -338,7 +338,7 @@ func runC14n(c *vrt.Ctx) {
 			}
 		}
 		deduplicateCase(c, t, r, d, cls, rp)
-		if c.WantSample() && ji%17 == 5 {
+		if c.WantSample() && ji == 5 {
 			c.Sample(map[string]any{"check": "rdf canonicalization", "family": d.family, "labels": d.labels, "blank_nodes": nb, "statements": len(d.quads), "variants": variants, "urdna2015": clipS(base[0], 300)})
 		}
 	})
